@@ -14,9 +14,13 @@
 //!              status-list fallback (every subset of <= 3 codes) and readers without any results; stateright BFS of the
 //!              same model as a cross-check of state counts (and a second engine evaluating the real code in every state).
 //!
-//! Mutants caught (tools/mutant_run.sh C <diff> C04 quick):
-//!   /verif/mutants/C04-tolerate-expired.diff   (is_tolerated_manifest_failure_code also tolerates signingCredential.expired)
-//!   /verif/mutants/C04-drop-inside-validity.diff (insideValidity conjunct dropped)
+//! Mutants caught (quick tier, patched scratch worktree, /verif/target-mut-C):
+//!   /verif/mutants/C04-tolerate-expired.diff     is_tolerated_manifest_failure_code also tolerates signingCredential.expired
+//!       -> "unsound got=Valid allowed=Invalid why=non-tolerated-failure:signingCredential.expired@active|delta1|delta2 via=seq" (>2000 cases)
+//!   /verif/mutants/C04-drop-inside-validity.diff the insideValidity conjunct dropped
+//!       -> "unsound got=Valid|Trusted allowed=Invalid why=no-claimSignature.insideValidity via=seq"
+//! Finding on the unchanged tree (expected, DESIGN 7): every reader without a results object reports Trusted (Valid with
+//! verify_trust=false): keys "legacy-fallback src=… list=absent|empty|tolerated-failures-only got=Trusted|Valid allowed=Invalid".
 
 use c2pa::{
     status_tracker::LogKind,
@@ -583,7 +587,7 @@ pub fn run(run: &Run, replay: Option<&Value>) {
     // reduced alphabet: per placement and bin, one representative of each code class
     let reduced: Vec<usize> = {
         let mut v = vec![];
-        for c in [VALIDATED, INSIDE, TRUSTED, UNTRUSTED, CAWG_CORE, "cawg.x509.signature.mismatch", HARD_FAILURE, "signingCredential.expired", "zz.unknown.code", "timeStamp.mismatch"] {
+        for c in [VALIDATED, INSIDE, TRUSTED, UNTRUSTED, CAWG_CORE, HARD_FAILURE, "signingCredential.expired", "zz.unknown.code"] {
             for p in 0..2u8 {
                 for b in [0u8, 2u8] {
                     v.push(al.idx(c, p, b));
